@@ -159,6 +159,19 @@ def run(shard, rec, tier, seed):
                 rec.violation("flip", "flip_msb not an involution on %d" % c, {"byte": c})
             rec.count("flip")
             rec.case(("flip", c))
+        # arguments passed by name
+        m = mon.m
+        for x in (b"", b"\x01", b"\x03\x06\x07\x09\x0c", bytes(range(1, 40))):
+            for name, refv in (("interleave", bytes(ref_interleave(list(x)))), ("deinterleave", bytes(ref_deinterleave(list(x)))), ("swap_multiples", bytes(ref_swap(list(x), 3)))):
+                b = bytearray(x)
+                try:
+                    getattr(m, name)(data=b, multiple=3) if name == "swap_multiples" else getattr(m, name)(data=b)
+                except Exception as ex:
+                    rec.violation("raises", "%s(data=...) raised %r" % (name, ex), {"data": x})
+                    continue
+                if bytes(b) != refv:
+                    rec.violation("pipeline", "%s(data=%s) gives %s, reference %s" % (name, x.hex(), bytes(b).hex(), refv.hex()), {"data": x, "f": name})
+        rec.count("keyword-calls", 12)
         rng = random.Random("C10-flip-%d" % seed)
         for _ in range(300):
             x = bytes(rng.randrange(256) for _ in range(rng.randrange(0, 80)))
